@@ -6,8 +6,8 @@
    multiplication algorithms, modular inverse, the 10x26 / 8x32 / struct-int128 / asm configurations,
    SHA-256/HMAC/RFC 6979) is tied by the differential correspondence of ./check C05 on a build matrix. *)
 From Coq Require Import ZArith List Bool.
-Require Import Kernel.CSem Kernel.Field5x52 Kernel.Field5x52Sqr Kernel.CtPrimitives Kernel.FieldNormalize Kernel.Scalar4x64 Kernel.ScalarMul512 Kernel.ScalarSqr512 Kernel.ScalarReduce512.
-Require Import Gen.fe_mul_inner Gen.fe_sqr_inner Gen.scalar_cmov Gen.fe_impl_cmov Gen.fe_impl_normalize Gen.scalar_check_overflow Gen.scalar_is_high Gen.scalar_mul_512 Gen.scalar_sqr_512 Gen.scalar_reduce_512.
+Require Import Kernel.CSem Kernel.Field5x52 Kernel.Field5x52Sqr Kernel.CtPrimitives Kernel.FieldNormalize Kernel.Scalar4x64 Kernel.ScalarMul512 Kernel.ScalarSqr512 Kernel.ScalarReduce512 Kernel.Scalar8x32Check Kernel.Scalar8x32Mul512 Kernel.Scalar8x32Reduce512.
+Require Import Gen.fe_mul_inner Gen.fe_sqr_inner Gen.scalar_cmov Gen.fe_impl_cmov Gen.fe_impl_normalize Gen.scalar_check_overflow Gen.scalar_is_high Gen.scalar_mul_512 Gen.scalar_sqr_512 Gen.scalar_reduce_512 Gen.scalar8x32_mul_512 Gen.scalar8x32_sqr_512 Gen.scalar8x32_check_overflow Gen.scalar8x32_reduce_512.
 Import ListNotations.
 Local Open Scope Z_scope.
 
@@ -78,6 +78,35 @@ Theorem scalar_reduce_512_correct : forall l0 l1 l2 l3 l4 l5 l6 l7,
     val4 r0 r1 r2 r3 = val8 l0 l1 l2 l3 l4 l5 l6 l7 mod N256).
 Proof. exact Kernel.ScalarReduce512.scalar_reduce_512_correct. Qed.
 Print Assumptions scalar_reduce_512_correct.
+(* The same three functions in the 32-bit-limb implementation (src/scalar_8x32_impl.h, the code compiled on 32-bit targets
+   and with USE_FORCE_WIDEMUL_INT64; translated with that macro): exact 512-bit product and square of eight 32-bit limbs,
+   exact range test, canonical reduction modulo n - for ALL limb values. *)
+Theorem scalar8x32_mul_512_correct : forall a0 a1 a2 a3 a4 a5 a6 a7 b0 b1 b2 b3 b4 b5 b6 b7,
+  0 <= a0 < 2^32 -> 0 <= a1 < 2^32 -> 0 <= a2 < 2^32 -> 0 <= a3 < 2^32 -> 0 <= a4 < 2^32 -> 0 <= a5 < 2^32 -> 0 <= a6 < 2^32 -> 0 <= a7 < 2^32 -> 0 <= b0 < 2^32 -> 0 <= b1 < 2^32 -> 0 <= b2 < 2^32 -> 0 <= b3 < 2^32 -> 0 <= b4 < 2^32 -> 0 <= b5 < 2^32 -> 0 <= b6 < 2^32 -> 0 <= b7 < 2^32 ->
+  scalar8x32_mul_512_k a0 a1 a2 a3 a4 a5 a6 a7 b0 b1 b2 b3 b4 b5 b6 b7 (fun l0 l1 l2 l3 l4 l5 l6 l7 l8 l9 l10 l11 l12 l13 l14 l15 =>
+    (0 <= l0 < 2^32 /\ 0 <= l1 < 2^32 /\ 0 <= l2 < 2^32 /\ 0 <= l3 < 2^32 /\ 0 <= l4 < 2^32 /\ 0 <= l5 < 2^32 /\ 0 <= l6 < 2^32 /\ 0 <= l7 < 2^32 /\ 0 <= l8 < 2^32 /\ 0 <= l9 < 2^32 /\ 0 <= l10 < 2^32 /\ 0 <= l11 < 2^32 /\ 0 <= l12 < 2^32 /\ 0 <= l13 < 2^32 /\ 0 <= l14 < 2^32 /\ 0 <= l15 < 2^32) /\
+    val16w l0 l1 l2 l3 l4 l5 l6 l7 l8 l9 l10 l11 l12 l13 l14 l15 = val8w a0 a1 a2 a3 a4 a5 a6 a7 * val8w b0 b1 b2 b3 b4 b5 b6 b7).
+Proof. exact Kernel.Scalar8x32Mul512.scalar8x32_mul_512_correct. Qed.
+Print Assumptions scalar8x32_mul_512_correct.
+Theorem scalar8x32_sqr_512_correct : forall a0 a1 a2 a3 a4 a5 a6 a7,
+  0 <= a0 < 2^32 -> 0 <= a1 < 2^32 -> 0 <= a2 < 2^32 -> 0 <= a3 < 2^32 -> 0 <= a4 < 2^32 -> 0 <= a5 < 2^32 -> 0 <= a6 < 2^32 -> 0 <= a7 < 2^32 ->
+  scalar8x32_sqr_512_k a0 a1 a2 a3 a4 a5 a6 a7 (fun l0 l1 l2 l3 l4 l5 l6 l7 l8 l9 l10 l11 l12 l13 l14 l15 =>
+    (0 <= l0 < 2^32 /\ 0 <= l1 < 2^32 /\ 0 <= l2 < 2^32 /\ 0 <= l3 < 2^32 /\ 0 <= l4 < 2^32 /\ 0 <= l5 < 2^32 /\ 0 <= l6 < 2^32 /\ 0 <= l7 < 2^32 /\ 0 <= l8 < 2^32 /\ 0 <= l9 < 2^32 /\ 0 <= l10 < 2^32 /\ 0 <= l11 < 2^32 /\ 0 <= l12 < 2^32 /\ 0 <= l13 < 2^32 /\ 0 <= l14 < 2^32 /\ 0 <= l15 < 2^32) /\
+    val16w l0 l1 l2 l3 l4 l5 l6 l7 l8 l9 l10 l11 l12 l13 l14 l15 = val8w a0 a1 a2 a3 a4 a5 a6 a7 * val8w a0 a1 a2 a3 a4 a5 a6 a7).
+Proof. exact Kernel.Scalar8x32Mul512.scalar8x32_sqr_512_correct. Qed.
+Print Assumptions scalar8x32_sqr_512_correct.
+Theorem scalar8x32_check_overflow_correct : forall d0 d1 d2 d3 d4 d5 d6 d7,
+  0 <= d0 < 2^32 -> 0 <= d1 < 2^32 -> 0 <= d2 < 2^32 -> 0 <= d3 < 2^32 -> 0 <= d4 < 2^32 -> 0 <= d5 < 2^32 -> 0 <= d6 < 2^32 -> 0 <= d7 < 2^32 ->
+  scalar8x32_check_overflow d0 d1 d2 d3 d4 d5 d6 d7 = if N256 <=? val8w d0 d1 d2 d3 d4 d5 d6 d7 then 1 else 0.
+Proof. exact Kernel.Scalar8x32Check.scalar8x32_check_overflow_correct. Qed.
+Print Assumptions scalar8x32_check_overflow_correct.
+Theorem scalar8x32_reduce_512_correct : forall l0 l1 l2 l3 l4 l5 l6 l7 l8 l9 l10 l11 l12 l13 l14 l15,
+  0 <= l0 < 2^32 -> 0 <= l1 < 2^32 -> 0 <= l2 < 2^32 -> 0 <= l3 < 2^32 -> 0 <= l4 < 2^32 -> 0 <= l5 < 2^32 -> 0 <= l6 < 2^32 -> 0 <= l7 < 2^32 -> 0 <= l8 < 2^32 -> 0 <= l9 < 2^32 -> 0 <= l10 < 2^32 -> 0 <= l11 < 2^32 -> 0 <= l12 < 2^32 -> 0 <= l13 < 2^32 -> 0 <= l14 < 2^32 -> 0 <= l15 < 2^32 ->
+  scalar8x32_reduce_512_k l0 l1 l2 l3 l4 l5 l6 l7 l8 l9 l10 l11 l12 l13 l14 l15 (fun r0 r1 r2 r3 r4 r5 r6 r7 =>
+    (0 <= r0 < 2^32 /\ 0 <= r1 < 2^32 /\ 0 <= r2 < 2^32 /\ 0 <= r3 < 2^32 /\ 0 <= r4 < 2^32 /\ 0 <= r5 < 2^32 /\ 0 <= r6 < 2^32 /\ 0 <= r7 < 2^32) /\
+    val8w r0 r1 r2 r3 r4 r5 r6 r7 = val16w l0 l1 l2 l3 l4 l5 l6 l7 l8 l9 l10 l11 l12 l13 l14 l15 mod N256).
+Proof. exact Kernel.Scalar8x32Reduce512.scalar8x32_reduce_512_correct. Qed.
+Print Assumptions scalar8x32_reduce_512_correct.
 Theorem N256_is_group_order : N256 = 0xFFFFFFFFFFFFFFFFFFFFFFFFFFFFFFFEBAAEDCE6AF48A03BBFD25E8CD0364141.
 Proof. reflexivity. Qed.
 
